@@ -305,6 +305,33 @@ def _(c):
     c.no_raise()
 
 
+# misplaced @else / @end make parsing fail -- also when some enclosing block is still open, and whatever the truth values are
+_C = lambda i: f'("{{?c{i}}}")'
+MISPLACED = [
+    ("else-after-an-inner-block-closed-by-end", f"@case {_C(0)}\n  @case {_C(1)}\n    a int = 1\n  @end\n  @else\n    a int = 2\n@end\nd int = 5"),
+    ("else-after-an-inner-block-closed-by-a-line", f"@case {_C(0)}\n  @case {_C(1)}\n    a int = 1\n  b int = 3\n  @else\n    a int = 2\n@end\nd int = 5"),
+    ("else-deeper-than-its-clause", f"@case {_C(0)}\n  g\n    a int = 1\n    @else\n    a int = 2\n@end"),
+    ("named-else-of-another-block-inside-an-open-clause", f"@case {_C(0)}\n  p.@case {_C(1)}\n    a int = 1\n  q.@else\n    a int = 2\n@end"),
+    ("else-without-any-block", "a int = 1\n@else\n  a int = 2\n@end"),
+    ("end-without-any-block", "a int = 1\n@end\nb int = 2"),
+    ("second-end", f"@case {_C(0)}\n  a int = 1\n@end\n@end"),
+    ("else-after-end-at-top-level", f"@case {_C(0)}\n  a int = 1\n@end\n@else\n  a int = 2"),
+    ("end-inside-a-group-of-the-clause", f"@case {_C(0)}\n  g\n    a int = 1\n    @end\nb int = 2"),
+]
+
+
+@contract(DIPC + ".parse", ["C15"], name="DIP.parse[misplaced-clause-keywords]")
+def _(c):
+    c.bound = f"{len(MISPLACED)} texts with an @else / @end that belongs to no open block at its place; truth values of the conditions symbolic"
+    c.chunk = 1
+    for name, text in MISPLACED:
+        def pre(b, text=text):
+            d, env, cs, vs = prestate(b, text)
+            return dict(args=[d], env=dict(text=text))
+        c.scenario(name, pre)
+    c.raises("True", label="parsing-fails")
+
+
 # =====================================================================================================================
 # General form: a prelude (parsed first; the values of some of its nodes are then replaced by symbols), a text parsed
 # on top of that environment, and what the property says about the outcome, written as small expression trees over the
